@@ -94,11 +94,6 @@ func (s *serviceImpl) Add(obj Actor) (index uint32, err error) {
 			return s.Add(obj)
 		}
 	}
-	if s.session == nil { // service not yet activated
-		s.objects[index] = obj
-		s.Unlock()
-		return
-	}
 	s.objects[index] = pendingObject{}
 	s.boxes[index] = NewMailBox(s.objects[index])
 	s.Unlock()
